@@ -17,7 +17,7 @@ func init() {
 			"A4 the read buffer is parsed only as buffer[:n]; K1/K2 Chain visits every member once in order, folds Bind results, keeps every Close error; Registry builds one member per factory. " +
 			"Composition over chains follows by induction over the fold K1 establishes.",
 		notDecided: "byte equality as seen by the downstream writer under concurrent injections; option combinations that fail construction; the buffering interceptors (pacing, jitterbuffer, cc pacer) which C01 excludes; ordering between concurrent callers",
-		sels: []sel{s("O3"), s("A7"), so("A6"), s("K3", `\|interceptor[.:]`), s("A0"), s("A1"), s("A2"), s("A3"), sx("A4", buffering), s("K1"), s("K2")},
+		sels: []sel{s("X5"), s("V2"), s("O3"), s("A7"), so("A6"), s("K3", `\|interceptor[.:]`), s("A0"), s("A1"), s("A2"), s("A3"), sx("A4", buffering), s("K1"), s("K2")},
 		assumptions: []string{
 			"go/ssa and go/types model the program faithfully; callees are resolved by type information (static callee or CHA/VTA call graph)",
 			"pion/rtp Header methods are classified by a frozen table read off pion/rtp v1.10.5 (mutators: SetExtension, SetExtensionWithProfile, DelExtension, ClearExtensions, Unmarshal)",
@@ -37,7 +37,7 @@ func init() {
 			"F2 every copy into a fixed-size pooled buffer is bounded by guards whose constants fit the buffer including the destination offset (or the buffer is re-allocated to the source length), and re-slices of pooled buffers use lengths derived from the buffer; F3 two-sided slices have ordered bounds (or the MarshalSize-of-a-header-parsed-from-the-same-bytes idiom) and length-relative bounds are tested; " +
 			"F4 results of Attributes.GetRTPHeader/GetRTCPPackets, rtcp.Unmarshal and pion/rtp Unmarshal are used only on the success branch of their error; A4 read buffers are used only as buffer[:n]; D3 no blocking send/receive on an internal channel on an API path without a close-channel case or default (no wedge).",
 		notDecided:  "crash-freedom itself: panics whose absence rests on arithmetic invariants (ring/bitmap indices seq%size, packetArrivalTimeMap capacity arithmetic, flexfec XOR lengths and constant header offsets), nil dereferences, panics inside pion/rtp and pion/rtcp, termination of loops (all loops over untrusted counts are bounded by 16-bit fields; not checked mechanically), one-sided slices s[n:] whose bound a callee computed",
-		sels:        []sel{s("X2"), s("A7"), s("D7"), s("T5"), s("N1"), s("N2"), s("C7"), s("A5"), so("F6"), so("F5"), so("L4", `jitterbuffer`), s("F1"), s("F2"), so("F3"), s("F4"), s("A4"), s("D3")},
+		sels:        []sel{s("N3"), s("W2"), s("X5"), s("F8"), s("X3"), s("X2"), s("A7"), s("D7"), s("T5"), s("N1"), s("N2"), s("C7"), s("A5"), so("F6"), so("F5"), so("L4", `jitterbuffer`), s("F1"), s("F2"), so("F3"), s("F4"), s("A4"), s("D3")},
 		assumptions: append([]string{"comparisons are credited as guards whatever their direction/strictness (a missing guard is detected, an off-by-one in a present guard is not, except for constant guards of pooled-buffer copies where the arithmetic is checked)", "two evaluations of a condition built only from parameters and constants agree (path classes are split on such conditions)"}, stdAssume...),
 	})
 	def(&propDef{
@@ -46,7 +46,7 @@ func init() {
 			"C2 state declared goroutine-confined is only accessed in functions reachable (call graph) from its owner goroutine's entry; C3 fields used with sync/atomic are only used with sync/atomic; C4 every other field of a lock-bearing type is never stored to on a shared object outside constructors/option closures (setup-time setters listed); " +
 			"C5 the held→acquired lock graph is acyclic, no mutex is re-acquired while held on the same object, and no WaitGroup.Wait/blocking channel operation happens under a lock its counterpart can need; D4 the close of each lifecycle channel and the isClosed/Add/go start sequence run under the same mutex; H3 every plain send on a channel that a Close method closes is made on the not-closed branch of a closed test while a lock is read-held that the closing site holds exclusively (Close racing with traffic cannot send on a closed channel).",
 		notDecided:  "races on memory the table does not name (fields of pion/rtp, pion/rtcp, x/time/rate objects; the Attributes map handed to packetdump's logger goroutine), lost updates that are not data races, liveness, stalls while a private lock is held across a downstream Write (noted, not a violation)",
-		sels:        []sel{s("O5"), s("O4"), s("C9"), s("C8"), s("C7"), s("C1"), s("C2"), s("C3"), s("C4"), s("C5"), s("C6"), s("D4"), s("H3")},
+		sels:        []sel{s("V2"), s("O5"), s("O4"), s("C9"), s("C8"), s("C7"), s("C1"), s("C2"), s("C3"), s("C4"), s("C5"), s("C6"), s("D4"), s("H3")},
 		assumptions: append([]string{"locks are identified by (struct type, field): two instances of one type are not distinguished", "the guard table and confinement table are hand-confirmed; every row must resolve to at least one access or the check fails", "exported methods are entry points with an empty lockset"}, stdAssume...),
 	})
 	def(&propDef{
@@ -54,7 +54,7 @@ func init() {
 		explanation: "Decides for every go statement, goroutine loop, API-path channel operation, lifecycle channel and per-stream container: D1 each goroutine is dominated by WaitGroup.Add on a field of its owner, its entry defers Done, the owner's Close reaches Wait on every path; D2 every blocking loop in a goroutine has a select case on (or ranges over) a channel that a Close method closes, and that case leaves the loop; " +
 			"D3 every send/receive on an internal channel in a function reachable from the API sits in a select with a close-channel case or a default; D4 close(lifecycle) and the start sequence share a mutex; D5 every container keyed by StreamInfo.SSRC that Bind{Local,Remote}Stream fills is emptied by the Unbind of the same direction and binding installs fresh state; D6 Bind starts a goroutine only on the not-closed branch of a closed test; C5(wait) a WaitGroup.Wait or blocking channel operation executed while a lock is held (including a lock held by the caller of Close) has no counterpart goroutine that can need that lock — Close cannot deadlock against the goroutine it waits for.",
 		notDecided:  "wall-clock promptness; goroutines blocked inside a user-supplied writer; that nothing is written after Close returns when the goroutine is accounted but slow; double Close",
-		sels:        []sel{s("D9"), s("D8"), s("D7"), s("N1"), s("N2"), s("C7"), s("D1"), s("D2"), s("D3"), s("D4"), s("D5"), s("D6"), s("C5", `\|wait:`)},
+		sels:        []sel{s("N3"), s("U3"), s("D9"), s("D8"), s("D7"), s("N1"), s("N2"), s("C7"), s("D1"), s("D2"), s("D3"), s("D4"), s("D5"), s("D6"), s("C5", `\|wait:`)},
 		assumptions: append([]string{"channels are identified by the struct fields / make sites they flow through (parameters resolved through static call sites)", "only closes executed from a Close method count as shutdown signals"}, stdAssume...),
 	})
 }
@@ -69,7 +69,7 @@ func init() {
 		explanation: "Decides two structural clauses for every per-packet writer/reader closure and every pacer Write: B — a forward taint analysis with function summaries from the caller's header pointer, payload slice and read buffer (including shallow struct copies, sub-slices, references loaded out of them, local carriers, closures capturing them) finds no flow into memory that outlives the call (fields of shared objects, globals, maps, channels, goroutines, sync.Pool/list/sync.Map) except through copy/Clone/append-of-bytes; " +
 			"A3 — no store through the caller's header/payload in the closure or any repository callee (only the negotiated transport-wide-CC SetExtension). Documented exceptions are frozen one by one (PacketFactoryNoOp = DisableCopy; the per-packet Attributes map).",
 		notDecided:  "aliasing manufactured inside pion/rtp parsing (extension payload slices of a header returned by Attributes.GetRTPHeader(b[:n]) point into b); the Attributes map itself; direct use of JitterBuffer.Push (excluded by the property)",
-		sels:        []sel{s("A9"), s("B"), s("A3")},
+		sels:        []sel{s("V2"), s("A9"), s("B"), s("A3")},
 		assumptions: append([]string{"library calls outside the deny-list (sync.Pool.Put, container/list insertions, sync.Map.Store, atomic.Value.Store) do not retain their arguments; results of external methods other than Clone/Marshal/MarshalSize may alias their receiver"}, stdAssume...),
 	})
 	def(&propDef{
@@ -90,7 +90,7 @@ func init() {
 		explanation: "Decides a necessary structural clause for every long-lived container of the library (every map, slice, list, sync.Map and channel field of a struct type that another struct holds, plus slices local to goroutine loops and the jitter buffer's linked list): E1 — a container that grows on a traffic path (reachable from a per-packet closure, a goroutine entry or a pacer/estimator entry point) also shrinks on a traffic path, or is of a bounded kind (channel with a configured capacity, map keyed by a ≤16-bit type, owner struct replaced as a whole, per-call temporary); " +
 			"E2 — a shrink site that only executes when a struct field is set counts only if something in the program sets that field; E3 — where a growing slice is processed on an equality trigger len(x)==N, every path from that branch resets it (otherwise the length passes N and the trigger never fires again); D5 — per-stream containers filled by Bind*Stream are emptied by the matching Unbind*Stream.",
 		notDecided:  "the numeric bound itself; whether an existing shrink runs often enough; GC reachability through third-party objects; growth hidden inside pion/rtp, pion/rtcp or x/time/rate",
-		sels:        []sel{s("E6"), s("E5"), s("E4", `\|pkg/stats[.:]`), s("K4", `\|pkg/stats[.:]`), s("C6", `keyed-update`), s("E1"), s("E2"), so("E3"), s("D5")},
+		sels:        []sel{s("E7"), s("E6"), s("E5"), s("E4", `\|pkg/stats[.:]`), s("K4", `\|pkg/stats[.:]`), s("C6", `keyed-update`), s("E1"), s("E2"), so("E3"), s("D5")},
 		assumptions: []string{"go/ssa and go/types model the program faithfully", "traffic paths are the call-graph closure of per-packet closures, goroutine entries and the exported per-packet entry points of pacers/estimators/recorders"},
 	}
 }
@@ -102,7 +102,7 @@ func init() {
 		explanation: "Decides the structural clauses from which gap-freedom and uniqueness follow: I1 — the extension value derives from the result of one sync/atomic read-modify-write Add(&counter, 1) (never from a separate load, never from Load+Store), and C3 — the counter field is only ever accessed through sync/atomic; I2 — on every path of the writer closure at most one number is allocated, the allocation dominates SetExtension and is not in a loop; " +
 			"A1 — after the extension is set the packet is forwarded exactly once or an error is returned; A3 — nothing else in the caller's header/payload is written; A0 — a stream that did not negotiate the extension gets its writer back unchanged. A single atomic fetch-and-add by 1 hands every caller a distinct consecutive uint32; truncation of consecutive integers to 16 bits is consecutive modulo 2^16.",
 		notDecided:  "a number is consumed when SetExtension fails (ids outside 1..14 / foreign extension profile — outside the quantifier); ordering between allocation and the downstream write of concurrent writers",
-		sels:        []sel{s("I4"), s("I3"), s("J5", `\|pkg/twcc[.:]`), so("A6", `twcc`), s("J3", `\|pkg/twcc[.:]`), s("I1"), s("I2"), s("C3", `twcc\.HeaderExtensionInterceptor`), s("A1", `twcc\.\(\*HeaderExtensionInterceptor\)`), s("A3", `twcc\.\(\*HeaderExtensionInterceptor\)`), s("A0", `twcc\.\(\*HeaderExtensionInterceptor\)`)},
+		sels:        []sel{s("X4", `inspected|\|pkg/twcc[.:]`), s("I4"), s("I3"), s("J5", `\|pkg/twcc[.:]`), so("A6", `twcc`), s("J3", `\|pkg/twcc[.:]`), s("I1"), s("I2"), s("C3", `twcc\.HeaderExtensionInterceptor`), s("A1", `twcc\.\(\*HeaderExtensionInterceptor\)`), s("A3", `twcc\.\(\*HeaderExtensionInterceptor\)`), s("A0", `twcc\.\(\*HeaderExtensionInterceptor\)`)},
 		assumptions: std,
 	}
 	props["C18"] = &propDef{
@@ -129,7 +129,7 @@ func init() {
 		explanation: "Decides the structural clauses the statement singles out: G1 — in every function that walks []*rtcp.RecvDelta with a cursor, no instruction that advances the cursor is control-dependent (post-dominator based, transitively) on a condition derived from a lookup in long-lived state (a comma-ok map lookup on a field, or a (T,bool) lookup predicate such as feedbackHistory.get): the arrival time decoded for a packet is independent of whether neighbouring packets are still in the history; " +
 			"G2 — in every symbol loop, the counter that feeds the attribution key (feedbackHistoryKey.sequenceNumber / acknowledgement.sequenceNumber) is advanced exactly once on every path through the loop body (path counting), or is the range index; F1 — every index into RecvDeltas / packet-derived slices is guarded; E2 — the flag that lets history.delete release the TWCC mapping is actually set.",
 		notDecided:  "arrival-time arithmetic (reference time ×64 ms, 250 µs deltas, RFC 8888 offsets), LRU contents of the sent-packet history, that each sent packet is reported at most once and in send order (value properties of history.buildReport), zero-valued acknowledgements emitted for unknown packets",
-		sels:        []sel{s("G4", `inspected|internal/cc|rtpfb`), s("O4", `inspected|rtpfb|internal/cc`), s("O2", `inspected|rtpfb`), s("A9"), s("W1", `\|(pkg/rtpfb|internal/cc)[.:]`), s("V1", `\|(pkg/rtpfb|internal/cc)[.:]`), s("J5", `\|(pkg/rtpfb|internal/cc)[.:]`), s("F7"), s("G3", `rtpfb`), s("P3", `rtpfb\.history`), s("J3", `\|(pkg/rtpfb|internal/cc)[.:]`), so("G1"), so("G2"), so("F1", `rtpfb\.convertTWCC|FeedbackAdapter|rtpfb\.convert`), so("E2", `rtpfb\.history`), so("E1", `rtpfb\.history`)},
+		sels:        []sel{s("W2", `inspected|\|(pkg/(rtpfb|twcc|rfc8888)|internal/cc)[.:]`), s("E7"), s("X4", `inspected|\|pkg/(rtpfb|twcc|rfc8888|cc|gcc)[.:]`), s("G4", `inspected|internal/cc|rtpfb`), s("O4", `inspected|rtpfb|internal/cc`), s("O2", `inspected|rtpfb`), s("A9"), s("W1", `\|(pkg/rtpfb|internal/cc)[.:]`), s("V1", `\|(pkg/rtpfb|internal/cc)[.:]`), s("J5", `\|(pkg/rtpfb|internal/cc)[.:]`), s("F7"), s("G3", `rtpfb`), s("P3", `rtpfb\.history`), s("J3", `\|(pkg/rtpfb|internal/cc)[.:]`), so("G1"), so("G2"), so("F1", `rtpfb\.convertTWCC|FeedbackAdapter|rtpfb\.convert`), so("E2", `rtpfb\.history`), so("E1", `rtpfb\.history`)},
 		assumptions: std,
 	}
 	props["C16"] = &propDef{
@@ -138,7 +138,7 @@ func init() {
 			"H2 — in the publishing function every pacer.SetTargetBitrate call and every invocation of the change callback receives the stored value itself (same SSA value or a reload of the field), and GetTargetBitrate returns that field (under SendSideBWE.lock by C1); " +
 			"H3 — every call path to a plain send on a channel that a Close method closes passes a closed test on its not-closed branch while a lock is read-held that the closing site holds exclusively (no send on a closed pipe, documented closed error otherwise); C5 — that wait-under-lock is deadlock-free; C1/C2 rows of the gcc types.",
 		notDecided:  "anything about the floating-point pipeline itself (rate = bits/dt with dt = 0, 0/0 in increase) beyond the fact that the clamp absorbs it; that feedback never blocks for long (consumers are goroutines fed through unbuffered pipes)",
-		sels:        []sel{s("D9", `pkg/gcc\.`), s("D8", `pkg/gcc\.`), s("U2", `\|pkg/gcc[.:]`), s("U1", `\|pkg/gcc[.:]`), s("W1", `\|pkg/(gcc|cc)[.:]`), s("V1", `\|pkg/(gcc|cc)[.:]`), s("C9", `inspected|gcc\.`), s("A5", `pkg/(cc|gcc)\.`), s("C7", `pkg/gcc\.`), s("H1"), s("H2"), s("H3"), s("C5", `gcc\.`), s("C1", `pkg/gcc\.`), s("C2", `pkg/gcc\.`)},
+		sels:        []sel{s("O4", `inspected|makers|\|pkg/(cc|gcc)[.:]`), s("D9", `pkg/gcc\.`), s("D8", `pkg/gcc\.`), s("U2", `\|pkg/gcc[.:]`), s("U1", `\|pkg/gcc[.:]`), s("W1", `\|pkg/(gcc|cc)[.:]`), s("V1", `\|pkg/(gcc|cc)[.:]`), s("C9", `inspected|gcc\.`), s("A5", `pkg/(cc|gcc)\.`), s("C7", `pkg/gcc\.`), s("H1"), s("H2"), s("H3"), s("C5", `gcc\.`), s("C1", `pkg/gcc\.`), s("C2", `pkg/gcc\.`)},
 		assumptions: std,
 	}
 }
@@ -149,7 +149,7 @@ func init() {
 		id: "C07", title: "Sender reports count what was sent (counter clause only)",
 		explanation: "Decides the counter clause: P1 — the sender-report writer closure calls senderStream.processRTP exactly once (path counting) before each identity forward, with the caller's own payload; inside processRTP packetCount is assigned its previous value +1 and octetCount its previous value + len(payload), each exactly once on every path (no branch skips or repeats them); A1 — every packet is forwarded exactly once or rejected; C1/C6 — both counters are only touched under senderStream.m and the read-modify-write is one critical section (no lost update).",
 		notDecided:  "the RTP↔NTP clause entirely: extrapolated RTP timestamp, NTP conversion, modulo-2^32 arithmetic, the out-of-order reference rule, one report per stream per tick",
-		sels:        []sel{s("A8", `report\.|inspected`), s("W1", `\|pkg/report[.:]`), s("V1", `\|pkg/report[.:]`), s("J5", `\|pkg/report[.:]`), s("J4", `\|pkg/report[.:]`), s("P3", `report\.senderStream`), s("P1"), s("A1", `report\.\(\*SenderInterceptor\)`), s("C1", `report\.senderStream\.`), s("C6", `report\.senderStream\.`), s("D5", `report\.SenderInterceptor`)},
+		sels:        []sel{s("V2", `inspected|\|pkg/report[.:]`), s("X4", `inspected|\|pkg/report[.:]`), s("A8", `report\.|inspected`), s("W1", `\|pkg/report[.:]`), s("V1", `\|pkg/report[.:]`), s("J5", `\|pkg/report[.:]`), s("J4", `\|pkg/report[.:]`), s("P3", `report\.senderStream`), s("P1"), s("A1", `report\.\(\*SenderInterceptor\)`), s("C1", `report\.senderStream\.`), s("C6", `report\.senderStream\.`), s("D5", `report\.SenderInterceptor`)},
 		assumptions: std,
 	}
 	props["C14"] = &propDef{
@@ -157,7 +157,7 @@ func init() {
 		explanation: "Decides the structural clauses: M1 — in FlexEncoder03.encodeFlexFecPacket all accesses to the coverage table (GetCoveredBy, ExtractMask1/2/3_03) use one and the same index value, so the masks written name exactly the packets that were combined, and the repair sequence number is advanced exactly once on every path that produces a packet and on none that does not; " +
 			"P2 + A1 — the application's packet is forwarded first, exactly once, unmodified (A3), and repair packets are injections issued only after it; B — what is buffered for XOR is a deep copy of what was sent (caller may reuse its buffer); F2 — the scratch buffer is re-allocated when a packet exceeds the pooled size; E3/C1 — the batch buffer is reset on every path from the batch-full trigger, under the stream mutex.",
 		notDecided:  "XOR recoverability itself, bit layout of the masks, header offsets and length recovery — algebra over byte values; the coverage mask construction (flexfec_coverage.go); FlexEncoder20 and the decoder (declared work in progress)",
-		sels:        []sel{s("W1", `\|pkg/flexfec`), s("V1", `\|pkg/flexfec`), s("T5", `inspected|flexfec`), so("T4", `flexfec`), s("K4", `\|pkg/flexfec[.:]`), s("T3", `flexfec`), s("M1"), so("P2", `flexfec`), s("A1", `flexfec`), s("A3", `flexfec`), s("B", `flexfec`), so("F2", `flexfec`), so("E3", `flexfec`), s("C1", `flexfec\.`)},
+		sels:        []sel{s("V3", `inspected|\|pkg/flexfec[.:]`), s("W2", `inspected|\|pkg/flexfec[.:]`), s("X4", `inspected|\|pkg/flexfec[.:]`), s("W1", `\|pkg/flexfec`), s("V1", `\|pkg/flexfec`), s("T5", `inspected|flexfec`), so("T4", `flexfec`), s("K4", `\|pkg/flexfec[.:]`), s("T3", `flexfec`), s("M1"), so("P2", `flexfec`), s("A1", `flexfec`), s("A3", `flexfec`), s("B", `flexfec`), so("F2", `flexfec`), so("E3", `flexfec`), s("C1", `flexfec\.`)},
 		assumptions: std,
 	}
 	props["C17"] = &propDef{
@@ -173,7 +173,7 @@ func init() {
 		explanation: "Decides: S1 — every store into a field of the exported *StreamStats structs in the recorder's record* methods is dominated by a branch condition computed from the recorder's own SSRC (header SSRC, MediaSSRC, report SSRC or DestinationSSRC membership compared with r.ssrc): a counter only moves for traffic addressed to that SSRC; S2 — the loops over the packets of a compound RTCP have no early exit (every packet of the compound is visited); S3 — no branch inside such a loop tests a loop-carried boolean that was computed from the recorder's SSRC for an earlier packet (each packet is judged by itself); " +
 			"A1/A2 on the four stats closures — every forwarded / successfully read packet is handed to the recorder exactly once and a failed read never is; C1/C6 — latestStats is only read and updated under recorder.ms in one critical section (no lost update).",
 		notDecided:  "every formula: packets lost as expected-minus-received, jitter, RTT from LSR/DLSR and DLRR, fraction lost, NTP conversions — numerical",
-		sels:        []sel{s("U2", `\|pkg/stats[.:]`), s("U1", `\|pkg/stats[.:]`), s("S7"), s("S6"), s("W1", `\|pkg/stats[.:]`), s("V1", `\|pkg/stats[.:]`), s("E4", `\|pkg/stats[.:]`), s("K4", `\|pkg/stats[.:]`), s("P3", `stats\.internalStats`), s("S1"), s("S2"), s("S3"), s("S4"), s("S5"), s("A1", `stats\.`), s("A2", `stats\.`), s("C1", `stats\.`), so("C6", `stats\.`)},
+		sels:        []sel{s("U2", `\|pkg/stats[.:]`), s("U1", `\|pkg/stats[.:]`), s("W2", `inspected|\|pkg/stats[.:]`), s("X4", `inspected|\|pkg/stats[.:]`), s("X3", `inspected|\|pkg/stats[.:]`), s("S7"), s("S6"), s("W1", `\|pkg/stats[.:]`), s("V1", `\|pkg/stats[.:]`), s("E4", `\|pkg/stats[.:]`), s("K4", `\|pkg/stats[.:]`), s("P3", `stats\.internalStats`), s("S1"), s("S2"), s("S3"), s("S4"), s("S5"), s("A1", `stats\.`), s("A2", `stats\.`), s("C1", `stats\.`), so("C6", `stats\.`)},
 		assumptions: std,
 	}
 }
@@ -265,6 +265,22 @@ func init() {
 	add("C02", "A7 no reader reports more bytes than the caller's buffer holds (callers re-slice the buffer with n).")
 	add("C15", "I4 from every allocation of a number, every path to a downstream write passes the SetExtension that puts the number on the packet: a pass-through decided after the allocation would consume numbers that never leave.")
 	add("C04", "T6 a ring slot whose occupant was released (directly or through a helper that releases the slot it is told to) is assigned nil or the new packet on every path to the return, or the ring is reset: no slot keeps a packet the ring no longer owns.")
+	add("C02", "N3 no function with an interface result returns a pointer that may be nil boxed in that interface (a φ with a nil edge): the interface is then non-nil, the caller's `!= nil` guard passes and the method call behind it dereferences nil — a panic in whichever goroutine runs it.")
+	add("C11", "N3 the same clause keeps Close from panicking a service goroutine it is waiting for (a disabled ticker returned as a typed nil, then stopped in the loop's deferred clean-up).")
+	add("C02", "W2 a constant left shift is not done in a narrower integer type and widened afterwards (the bits shifted out are lost), and a slice size that is a difference of unsigned operands is dominated by a comparison of the two operands (a wrapped difference makes make panic in the caller of Read).")
+	add("C09", "W2 keys built by shifting (ssrc<<16 | seq) are shifted in the width of the key: two SSRCs that agree in their low 16 bits otherwise share history entries and feedback for one stream is written onto the other's packets.")
+	add("C02", "X5 the keys under which Attributes caches the parsed header and packets are constants of a package-private named type: a plain int key is equal to an application's or another interceptor's int key of the same value, and every read then fails with errInvalidType (or accounts the wrong packet).")
+	add("C07", "V2 the batch handed to the next RTCP writer is not a persistent slice refilled in place (`x = append(x[:0], …)` on a field, a captured variable or a loop-carried value): a writer that reads the batch later finds the next report in it — one report twice, the other never. Selected likewise under C01, C10 (the reader races with the refill) and C13.")
+	add("C14", "V3 no write through a sub-slice cut from a slice made without spare capacity can follow an append to that slice: once the payload buffer has been regrown the header view points into the abandoned array, and the header fields XOR-ed afterwards are missing from the repair packet that is sent.")
+	add("C16", "C9 also follows defer: a callback deferred after `defer mu.Unlock()` runs before the unlock (LIFO) — synchronously, under the estimator's lock, on the pipeline goroutine.")
+	add("C11", "U3 a copy derived from the stream table that is rebuilt only when a dirty flag is raised (a flag that is only ever assigned constants, tested and lowered where the table is re-read) is current only if every function that mutates the table raises the flag: an Unbind that deletes the stream without raising it leaves the periodic loop emitting feedback for the removed SSRC on every tick.")
+	add("C02", "F8 an object a receiver-filling parser writes into (rtp.Header.Unmarshal) is filed in a map, stored through a parameter or sent on a channel only where the parse is known to have succeeded: a header cached before it is parsed stays in the attributes when the parse fails, and the next interceptor gets the half-filled header with a nil error and slices the packet by it.")
+	add("C02", "X3 where the library has a reader that hands up other bytes than it read (the jitter buffer, RTP), no RTP reader uses its attributes *parameter* after the upstream read: it holds what inner interceptors cached for the packet that was read, not for the packet the reader was given (X2's panic, seen from the outer side).")
+	add("C19", "X3 the recorder is given the attributes the upstream read returned with the packet, not the ones passed down: behind a jitter buffer the latter describe another packet, and the recount would use its header size and sequence number.")
+	add("C09", "X4 nothing a Bind*Stream method derives from its StreamInfo (the negotiated transport-wide-CC extension ID) is stored in a plain field of the interceptor: the next Bind overwrites it and the streams bound earlier are parsed with the last stream's ID — feedback attributed to the wrong sent packets. Selected likewise under C15, C07, C14 and C19 for the interceptors they cover.")
+	add("C09", "E7 the sent-packet LRU files a list element in its index only where the key is known absent (or after unlinking the previous element): a record pushed for a key already present orphans the old element, and the orphan's eviction later deletes the live record's index entry — feedback for a retransmitted packet stops matching.")
+	add("C12", "E7 the same clause bounds the LRU: an orphaned element per repeated key is a list that grows with the number of retransmissions.")
+	add("C16", "O4(c) a function literal that can be the per-interceptor maker a factory keeps (cc.InterceptorFactory.bweFactory) builds what it returns: handing back a captured estimator gives every PeerConnection the same SendSideBWE — one target bitrate, one pacer, one closed flag.")
 	add("C19", "S7 a figure copied out of an RTCP object (a sender report's packet count, a report block's jitter) is assigned only under a comparison of the recorder's SSRC with a field of that same object: reaching the recorder because the compound packet mentions the stream is not enough — a sender report of another stream that carries a block about this one must not overwrite this stream's remote-outbound figures.")
 	add("C19", "S6 the figures copied from one report block (values computed from nothing but that block's fields) are assigned on the same paths of an iteration: an early continue cannot leave one of them from an older report; V1 no mutating method is called on a discarded copy of the recorder's state (an unwrapper inside a struct passed by value).")
 	add("C14", "V1 no mutating method is called on a copy that is then dropped (`for _, m := range masks { m.Reset() }` clears nothing).")
